@@ -188,11 +188,36 @@ def _walk(args):
     law = (ExtendedNeuber if law_id == 'EN' else SeegerBeste)(E, K, n, kp)
     steps, nraised = [], 0
     smin = None
+    # the whole load range of the walk in ONE long vector (a load collective / a field of a model): 400 loads plus the walk's own, as an array and as
+    # a Series whose integer labels are a permutation of the positions; every element must be the answer the load gets in the short calls of the walk
+    # and a root of the defining equation
+    grid = np.unique(np.concatenate([np.linspace(0.01, 1.1 * max(fracs), 400) * K, [fr * K for fr in fracs]]))
+    labels = ((np.arange(len(grid)) * 7 + 3) % len(grid)) if len(grid) % 7 else np.arange(len(grid))[::-1]      # a permutation of 0..n-1: every position is also a label, of another row
+    batch = {}
+    bres = {'P': 0, 'S': 0}
+    with warnings.catch_warnings():
+        warnings.simplefilter('ignore')
+        for key, fn, fac in (('P', law.stress, 1.0), ('S', law.stress_secondary_branch, 2.0)):
+            for form in ('arr', 'ser'):
+                try:
+                    inp = fac * grid if form == 'arr' else pd.Series(fac * grid, index=pd.Index(labels, name='class'))
+                    out = fn(inp, rtol=rtol, tol=tol)
+                    if isinstance(out, pd.Series) and list(out.index) != list(inp.index):      # (Seeger-Beste answers a Series with a bare array: taken by position)
+                        batch[key + form] = np.full(len(grid), np.nan)
+                        continue
+                    vals = np.asarray(out, dtype=np.float64)
+                    batch[key + form] = vals
+                    for x, v in zip(grid, vals):
+                        bres[key] = max(bres[key], _res(law_id, float(v), fac * float(x), E, K, n, kp, key == 'S', rtol, tol) if v == v and v > 0 else 10 ** 6)
+                except Exception:
+                    nraised += 1
+                    batch[key + form] = None
     with warnings.catch_warnings():
         warnings.simplefilter('ignore')
         for fr in fracs:
             L = fr * K
             st = {'lgL': lg(L), 'raised': False}
+            gi = int(np.argmin(np.abs(grid - L)))
             try:
                 # two-element arrays are the least common denominator of both laws (SeegerBeste raises TypeError for scalars and one-element
                 # arrays on the unchanged tree: scipy then returns a RootResults object — such calls are counted, not failed)
@@ -213,8 +238,12 @@ def _walk(args):
                     forms.append(lg(withzero[1]) if (withzero[0] == 0.0 or withzero[0] != withzero[0]) else BAD)     # the zero itself: 0, or NaN (Seeger-Beste: 0/0 in its equation — observation O11, not a returned stress)
                 except Exception:
                     nraised += 1
+                for k2 in ('Parr', 'Pser'):
+                    if batch.get(k2) is not None:
+                        forms.append(lg(batch[k2][gi]))
                 sn = scalar(law.stress(pair(-L), rtol=rtol, tol=tol))
                 d = scalar(law.stress_secondary_branch(pair(2 * L), rtol=rtol, tol=tol))
+                st['formsD'] = [lg(batch[k2][gi]) for k2 in ('Sarr', 'Sser') if batch.get(k2) is not None]
                 eps = scalar(law.strain(pair(s), pair(L)))
                 deps = scalar(law.strain_secondary_branch(pair(d), pair(2 * L)))
                 st.update({'lgS': lg(s), 'lgSneg': lg(sn), 'signs_ok': bool(s > 0 and sn < 0 and d > 0), 'lgD': lg(d), 'forms': forms,
@@ -251,11 +280,16 @@ def _walk(args):
             except Exception as ex:
                 nraised += 1
                 st = {'lgL': lg(L), 'raised': True, 'lgS': 0, 'lgSneg': 0, 'signs_ok': True, 'lgD': 0, 'forms': [], 'lgEps': 0, 'lgEpsRO': 0, 'lgDEps': 0, 'lgDEpsRO': 0,
-                      'resP': 0, 'resS': 0, 'lgLb': 0, 'lgLbs': 0, 'lgLbneg': 0, 'lgLbArr': 0, 'lgLbsArr': 0, 'error': repr(ex)[:120]}
+                      'resP': 0, 'resS': 0, 'lgLb': 0, 'lgLbs': 0, 'lgLbneg': 0, 'lgLbArr': 0, 'lgLbsArr': 0, 'formsD': [], 'error': repr(ex)[:120]}
             steps.append(st)
     smin = smin or 1.0
     tau = int(math.ceil(2 ** 20 * math.log2(1 + 4 * (rtol + tol / smin)))) + 2
-    return {'law': law_id, 'lgKp': lg(kp) if kp != 1 else 0, 'tau': tau, 'steps': steps,
+    for st in steps:
+        st.setdefault('formsD', [])
+    # Seeger-Beste with K_p within 0.2 % of 1: eq. 2.8-42 has a second root just above the load (elastic regime: load * (1 + 2.43 (K_p - 1)^2), further out with
+    # plasticity) in which the iteration ends (known finding C06-SB-Kp-near-1); the specification admits an excess of one bracket width K_p - 1 over the load, by name
+    spur = lg(kp) if (law_id == 'SB' and kp < 1.002) else 0
+    return {'law': law_id, 'lgKp': lg(kp) if kp != 1 else 0, 'tau': tau, 'spur': spur, 'bresP': bres['P'], 'bresS': bres['S'], 'steps': steps,
             'material': {'E': E, "K'": K, "n'": n, 'K_p': kp, 'rtol': rtol, 'tol': tol}, 'load_fractions_of_Kprime': list(fracs)}, nraised
 
 
@@ -285,7 +319,7 @@ def run(chk):
     # recorded walks
     rng = random.Random(chk.seed * 7 + 6)
     jobs = []
-    kps = {'EN': [1.0, 1.2, 2.0, 3.5, 8.0], 'SB': [1.2, 2.0, 3.5, 8.0]}
+    kps = {'EN': [1.0, 1.2, 2.0, 3.5, 8.0, 50.0], 'SB': [1.001, 1.2, 2.0, 3.5, 8.0, 15.0, 50.0]}
     for law_id in ('EN', 'SB'):
         for mat in MATERIALS if not quick else MATERIALS[:1] + MATERIALS[3:]:
             for kp in kps[law_id]:
@@ -296,7 +330,7 @@ def run(chk):
     results = par.pmap(_walk, jobs, chunksize=1)
     traces = [r[0] for r in results]
     raised_w = sum(r[1] for r in results)
-    out = tlc.validate_traces(TRACE_TLA, TRACE_CFG, [{k: t[k] for k in ('law', 'lgKp', 'tau', 'steps')} for t in traces], 'c06', nsplit=6)
+    out = tlc.validate_traces(TRACE_TLA, TRACE_CFG, [{k: t[k] for k in ('law', 'lgKp', 'tau', 'spur', 'bresP', 'bresS', 'steps')} for t in traces], 'c06', nsplit=6)
     chk.cov['states'] += out['states']
     chk.cov['transitions'] += out['generated']
     for e in out['errors']:
@@ -311,6 +345,15 @@ def run(chk):
         steps, clause = v[0], v[1]
         if clause == 'ok':
             acc += 1
+            if t['spur'] and any((not s_['raised']) and s_['lgS'] > s_['lgL'] + t['tau'] for s_ in t['steps']):
+                f = next((f for f in findings.load('C06') if f.get('match_law') == t['law'] and t['material']['K_p'] < f.get('match_kp_below', 0)), None)
+                if f is None:
+                    s_ = next(s_ for s_ in t['steps'] if (not s_['raised']) and s_['lgS'] > s_['lgL'] + t['tau'])
+                    chk.violation('Seeger-Beste stress above the load', t['material'], None, s_, part='walk')
+                else:
+                    msg = '%s: %s' % (f['id'], f['symptom'])
+                    if msg not in chk.known:
+                        chk.known.append(msg)
             if any(not s['raised'] for s in t['steps']):
                 chk.nontrivial(('walk', t['law'], tuple(sorted(t['material'].items()))))
         else:
@@ -325,8 +368,8 @@ def run(chk):
     chk.cov['solver_raised_counted_not_failed'] = raised + raised_w
     chk.cov['rule'] = ('(T) TLC enumerates (m, K_p, stress/K\', load/stress) on a rational lattice and constructs the stiffness ratio E/K\' for which the stress is the EXACT root of the coded implicit '
                        'function (n\' = 1/m), proving root / oddness / Masing doubling / bracket / monotonicity exactly; every state is replayed into ExtendedNeuber for two K\' and both tolerances '
-                       '(stress, secondary branch, strain, backward functions, scalar/array/Series). (M) for FKM-estimate materials (steel, cast steel, aluminium), K_p in {1, 1.2, 2, 3.5, 8}, both laws and both '
-                       'tolerances an ascending load walk is recorded (all observables as micro-log integers, residual of the harness\' own transcription of the defining equation) and validated by Trace_Notch.tla. '
+                       '(stress, secondary branch, strain, backward functions, scalar/array/Series). (M) for FKM-estimate materials (steel, cast steel, aluminium), K_p in {1, 1.2, 2, 3.5, 8, 50} (Seeger-Beste: 1.001, 1.2 ... 8, 15, 50), both laws and both '
+                       'tolerances an ascending load walk is recorded, plus the whole load range in one vector of 400 loads as array and as Series with permuted labels (all observables as micro-log integers, residual of the harness\' own transcription of the defining equation) and validated by Trace_Notch.tla. '
                        'Non-trivial = K_p > 1 lattice states, walks with at least one answered step.')
     chk.cov['exhaustive'] = True
     chk.assumptions += ['(T) only for n\' = 1/m (m = 2..4), where the root is rational; realistic n\' are covered by the recorded walks, whose root clause relies on the harness\' transcription of eq. 2.5-45/46 and 2.8-42/43',
